@@ -3,6 +3,8 @@ package kdir
 import (
 	"os"
 	"path/filepath"
+
+	"github.com/klev-dev/klevdb/pkg/verifhook"
 )
 
 func SyncParent(path string) error {
@@ -17,6 +19,11 @@ func Sync(dir string) (retErr error) {
 	defer func() {
 		if err := f.Close(); retErr == nil {
 			retErr = err
+		}
+	}()
+	defer func() {
+		if retErr == nil {
+			verifhook.FS("dirsync", "kdir.Sync", dir, "")
 		}
 	}()
 	return f.Sync()
